@@ -82,9 +82,25 @@ def fam_scaled(rng, n):
     return e[:, None] * K0 * e[None, :], {}
 
 
+def fam_geometric(rng, n):
+    # K = P A diag(r^-i) A^T P^T, A unit lower triangular with dyadic entries, r = 16 (n <= 8) or 8: the relative residual
+    # trace falls by a factor r per column and crosses 2^-23 (float32 eps) well before full rank; every entry is exact
+    r = 16.0 if n <= 8 else 8.0
+    A = torch.eye(n, dtype=DT)
+    for i in range(n):
+        for j in range(i):
+            A[i, j] = rng.randint(-4, 4) / 4
+    lam = torch.tensor([r ** (-i) for i in range(n)], dtype=DT)
+    K = (A * lam) @ A.T
+    p = list(range(n))
+    rng.shuffle(p)
+    return sym_permute(K, p), {}
+
+
 FAMILIES = {
     "full": fam_full, "lowrank": fam_lowrank, "lowrank_mixed": fam_lowrank_mixed, "tied_kernel": fam_tied_kernel, "persym": fam_persym,
     "blocksym": fam_blocksym, "diag": fam_diag, "toeplitz": fam_toeplitz, "scaled": fam_scaled,
+    "geometric": fam_geometric,
 }
 
 
@@ -176,6 +192,7 @@ CLASSES_FOR = {
     "diag": ["Dense", "Diag"],
     "toeplitz": ["Dense", "Toeplitz"],
     "scaled": ["Dense", "Sum"],
+    "geometric": ["Dense", "Sum"],
 }
 
 
@@ -352,11 +369,13 @@ def check_pc_member(K, L, perm, r, rtol=1e-8):
         chosen = cand.index(perm[j])
         others = [v for v in vals if v != mx]
         if others:
-            info["min_gap"] = min(info["min_gap"], (mx - max(others)) / scale)
+            # relative to the current maximum (late pivots of a fast-decaying matrix are tiny), but never finer than
+            # 1e-5 of the matrix scale: rounding noise of the tracked diagonal is ~1e-16 * scale
+            info["min_gap"] = min(info["min_gap"], (mx - max(others)) / max(abs(mx), 1e-5 * scale))
         if vals.count(mx) > 1:
             info["ties"] += 1
         if chosen != first:
-            if d[perm[j]] < mx - 1e-9 * scale:
+            if d[perm[j]] < mx - max(1e-9 * abs(mx), 1e-13 * scale):
                 fails.append(("argmax", "pivot %d (index %d, residual diagonal %.17g) is not the largest remaining residual diagonal entry (%.17g at index %d)"
                               % (j, perm[j], d[perm[j]], mx, cand[first])))
             elif d[perm[j]] == mx:
